@@ -260,7 +260,8 @@ Theorem find_destination_gen n len sx st rd m :
   (forall j, (j < len)%nat -> nth j rd ev0 = nth (len - 1 - j) (file st) ev0) ->
   exists i0, Winsort_gen.find_destination (Some tt) m sx st = Done i0 st /\
     match WinsortDefs.find_destination n rd m with
-    | Some w => 0 <= i0 /\ ix_ptr_ev (r_ev (ring st)) i0 = Some (len - w)%nat /\ (1 <= w <= len)%nat
+    | Some w => 0 <= i0 /\ ix_ptr_ev (r_ev (ring st)) i0 = Some (len - w)%nat /\ (1 <= w <= len)%nat /\
+                i0 = Z.of_nat (len - w) mod Z.of_nat n /\ (w <= remembered n len)%nat
     | None => i0 = -1
     end.
 Proof.
@@ -296,10 +297,12 @@ Proof.
     unfold WinsortDefs.find_destination. rewrite Ering. cbn [skipn].
     destruct (find_lower m (firstn c rd) 0) as [nb|] eqn:F.
     + apply find_lower_bound in F. rewrite firstn_length, Hrd in F. rewrite Nat.min_l in F by lia.
-      exists (slotZ n len nb). split; [reflexivity|]. split; [|split].
+      exists (slotZ n len nb). split; [reflexivity|]. split; [|split; [|split; [|split]]].
       * unfold slotZ. apply Z.mod_pos_bound. lia.
       * rewrite (rep_entry n len (ring st) nb R) by (fold c; lia). f_equal. lia.
       * lia.
+      * unfold slotZ. f_equal. lia.
+      * fold c. lia.
     + rewrite firstn_length, Hrd, Nat.min_l by lia. rewrite Hs.
       destruct (Nat.ltb_spec c (n - 1)) as [Hsm|Hfl].
       * assert (Ec : c = len) by (unfold c, remembered in *; lia).
@@ -307,10 +310,12 @@ Proof.
         rewrite Hh, Ht. fold c. rewrite Ec. rewrite Z.sub_diag, Z.mod_0_l by lia. cbn [Z.eqb negb].
         rewrite Z.mod_small by lia.
         destruct (Z.geb_spec (Z.of_nat len) (Z.of_nat n - 1)); [lia|].
-        exists 0. split; [reflexivity|]. split; [lia|]. split; [|lia].
-        pose proof (rep_entry n len (ring st) (len - 1)%nat R ltac:(fold c; lia)) as He.
-        unfold slotZ in He. replace (Z.of_nat len - 1 - Z.of_nat (len - 1)) with 0 in He by lia.
-        rewrite Z.mod_0_l in He by lia. rewrite He. f_equal. lia.
+        exists 0. split; [reflexivity|]. split; [lia|]. split; [|split; [lia|split]].
+        -- pose proof (rep_entry n len (ring st) (len - 1)%nat R ltac:(fold c; lia)) as He.
+           unfold slotZ in He. replace (Z.of_nat len - 1 - Z.of_nat (len - 1)) with 0 in He by lia.
+           rewrite Z.mod_0_l in He by lia. rewrite He. f_equal. lia.
+        -- rewrite Nat.sub_diag. rewrite Z.mod_0_l by lia. reflexivity.
+        -- fold c. lia.
       * destruct (Z.ltb_spec (Z.of_nat c) (Z.of_nat n - 1)); [lia|].
         exists (-1). split; reflexivity.
 Qed.
@@ -346,45 +351,361 @@ Proof.
   - assert (Eq : clock (nth b (file st) ev0) = mc) by lia. rewrite Eq, E1. reflexivity.
 Qed.
 
-(* ------------------------------------------------------------------ a hand-written driver around the generated functions *)
-(* NOT translated: the per-event body of stream_winsort (locals st / sp by value / counters) and its
-   `while (stream_step)` loop.  This driver restates them by hand around the GENERATED starts/ends_unsorted_region,
-   execute_sort_plan and ring_add, so that whole runs can be executed (examples in Props/Properties_C16.v). *)
-Definition set_plan (st : wstate_c) (p : csp) : wstate_c := mk_wc (file st) (ring st) p (scratch st).
+(* ------------------------------------------------------------------ (3) execute_sort_plan: the success path *)
 
-Definition drive_step (acc : res Z) (k : nat) : res Z :=
-  match acc with
-  | Fail e => Fail e
-  | Done stc st =>
-    let e := Some k in
-    let r1 :=
-      if (stc =? 83) && negb (Winsort_gen.starts_unsorted_region tt st e =? 0) then Done 85 st
-      else if stc =? 85 then
-        (if negb (Winsort_gen.ends_unsorted_region tt st e =? 0) then Done 83 st
-         else Done 88 (set_plan st (mk_csp e (sp_next (plan st)) (sp_fd (plan st)))))
-      else if (stc =? 88) && negb (Winsort_gen.ends_unsorted_region tt st e =? 0) then
-        match Winsort_gen.execute_sort_plan (Some tt) tt (set_plan st (mk_csp (sp_bad0 (plan st)) e (sp_fd (plan st)))) with
-        | Done _ st' => Done 83 (set_plan st' (mk_csp None None (sp_fd (plan st'))))
-        | Fail x => Fail x
-        end
-      else Done stc st in
-    match r1 with
-    | Fail x => Fail x
-    | Done stc' st' => match Winsort_gen.ring_add (Some tt) e tt st' with Done _ st'' => Done stc' st'' | Fail x => Fail x end
-    end
-  end.
+Definition slotK (n k : nat) : Z := Z.of_nat k mod Z.of_nat n.
 
-(* ovnisort -n n on one non-empty stream: Some file' = exit status 0 *)
-Definition drive (n : nat) (evs : list ev) : option (list ev) :=
-  let st0 := mk_wc evs (mk_cring 0 0 (Z.of_nat n) (repeat None n)) (mk_csp None None 3) [] in
-  match Winsort_gen.ring_reset (Some tt) tt st0 with
-  | Fail _ => None
-  | Done _ st1 =>
-    match fold_left drive_step (seq 0 (length evs)) (Done 83 st1) with
-    | Done _ st => Some (file st)
-    | Fail _ => None
-    end
+Lemma wrap_inc x n : 0 < n -> (if x mod n + 1 >=? n then 0 else x mod n + 1) = (x + 1) mod n.
+Proof.
+  intros Hn. pose proof (Z.mod_pos_bound x n Hn). pose proof (Z.div_mod x n ltac:(lia)).
+  destruct (Z.geb_spec (x mod n + 1) n).
+  - apply Z.mod_unique with (q := x / n + 1); [left; lia|nia].
+  - apply Z.mod_unique with (q := x / n); [left; lia|nia].
+Qed.
+
+Lemma rem_inc x n : 0 < n -> c_rem (x mod n + 1) n = (x + 1) mod n.
+Proof.
+  intros Hn. pose proof (Z.mod_pos_bound x n Hn). unfold c_rem.
+  rewrite Z.rem_mod_nonneg by lia. rewrite Zplus_mod_idemp_l. reflexivity.
+Qed.
+
+Lemma rep_entryK n len g k : Rep n len g -> (len - remembered n len <= k < len)%nat ->
+  ix_ptr_ev (r_ev g) (slotK n k) = Some k.
+Proof.
+  intros R Hk. pose proof (rep_entry n len g (len - 1 - k)%nat R ltac:(lia)) as H.
+  unfold slotZ in H. unfold slotK.
+  replace (Z.of_nat len - 1 - Z.of_nat (len - 1 - k)) with (Z.of_nat k) in H by lia.
+  rewrite H. f_equal. lia.
+Qed.
+
+Lemma slotK_range n k : (1 <= n)%nat -> 0 <= slotK n k < Z.of_nat n.
+Proof. intros. unfold slotK. apply Z.mod_pos_bound. lia. Qed.
+
+Lemma slotK_neq n k len : (k < len)%nat -> (len - k < n)%nat -> slotK n k <> slotK n len.
+Proof.
+  intros H1 H2. unfold slotK. replace (Z.of_nat k) with (Z.of_nat len - Z.of_nat (len - k)) by lia.
+  apply mod_shift_neq. lia.
+Qed.
+
+Lemma upd_same {A} (l : list A) d : forall i, (i < length l)%nat -> upd l i (nth i l d) = l.
+Proof.
+  induction l as [|a t IH]; intros [|i] H; cbn [length] in H; try lia; cbn [upd nth]; [reflexivity|].
+  rewrite IH by lia. reflexivity.
+Qed.
+
+(* rebuild_ring re-points the entries at the events they already designate (pointers are event indices) *)
+Lemma rebuild_id n len g : Rep n len g -> forall d k fuel,
+  (k + d = len)%nat -> (len - remembered n len <= k)%nat -> (d < fuel)%nat ->
+  rebuild fuel g (slotK n k) k len = Some g.
+Proof.
+  intros R. pose proof (rep_tailZ _ _ _ R) as Ht. pose proof (rp_size _ _ _ R) as Hs.
+  pose proof (rp_n _ _ _ R) as Hn. pose proof (rp_len _ _ _ R) as Hl.
+  assert (Hc : (remembered n len <= n - 1)%nat) by (unfold remembered; lia).
+  induction d as [|d IH]; intros k fuel Hk Hlo Hf; (destruct fuel as [|f]; [lia|]); cbn [rebuild].
+  - assert (k = len) by lia. subst k. rewrite Ht. unfold slotK. rewrite Z.eqb_refl, Nat.eqb_refl. reflexivity.
+  - rewrite Ht. fold (slotK n len).
+    destruct (Z.eqb_spec (slotK n k) (slotK n len)) as [E|_]; [exfalso; revert E; apply slotK_neq; lia|].
+    destruct (Nat.leb_spec len k); [lia|].
+    pose proof (rep_entryK n len g k R ltac:(lia)) as He. unfold ix_ptr_ev in He.
+    pose proof (slotK_range n k Hn) as Hr.
+    rewrite <- He. rewrite upd_same by (rewrite Hl; lia).
+    rewrite ?Hs.
+    assert (Eg : mk_cring (r_head g) (slotK n len) (Z.of_nat n) (r_ev g) = g).
+    { unfold slotK. rewrite <- Ht, <- Hs. destruct g; reflexivity. }
+    rewrite Eg.
+    unfold slotK at 1 2. rewrite wrap_inc by lia.
+    replace (Z.of_nat k + 1) with (Z.of_nat (S k)) by lia. fold (slotK n (S k)).
+    apply IH; lia.
+Qed.
+
+Section RcLoop.
+  Variables (n len a : nat) (sx : wenv) (st : wstate_c).
+  Variable cond : Z -> wenv -> wstate_c -> bool.
+  Variable next : Z -> wenv -> wstate_c -> Z.
+  Variable body : Z -> Z -> M (lres Z).
+  Hypothesis Hn : (2 <= n)%nat.
+  Hypothesis Hw : (len - a < n)%nat.
+  Hypothesis Hfile : (len <= length (file st))%nat.
+  Hypothesis Hcond : forall i, cond i sx st = negb (i =? slotK n len).
+  Hypothesis Hnext : forall i, next i sx st = c_rem (i + 1) (Z.of_nat n).
+  Hypothesis Hbody : forall k last, (a <= k < len)%nat ->
+    body (slotK n k) last sx st =
+    if clock (nth k (file st) ev0) <? last then Fail E_DIE else Done (LCont (clock (nth k (file st) ev0))) st.
+
+  Lemma rc_loop : forall d k fuel last, (k + d = len)%nat -> (a <= k)%nat -> (d < fuel)%nat ->
+    if sorted_from last (firstn d (skipn k (file st)))
+    then exists last', for_go fuel cond next body (slotK n k) last sx st = Done (LCont last') st
+    else for_go fuel cond next body (slotK n k) last sx st = Fail E_DIE.
+  Proof.
+    induction d as [|d IH]; intros k fuel last Hk Ha Hf; (destruct fuel as [|f]; [lia|]); cbn [for_go]; rewrite Hcond.
+    - assert (k = len) by lia. subst k. rewrite Z.eqb_refl. cbn [negb firstn sorted_from]. eauto.
+    - destruct (Z.eqb_spec (slotK n k) (slotK n len)) as [E|_]; [exfalso; revert E; apply slotK_neq; lia|].
+      cbn [negb]. rewrite (Hbody k last) by lia.
+      rewrite (skipn_nth_cons (file st) ev0 k) by lia. cbn [firstn sorted_from].
+      destruct (clock (nth k (file st) ev0) <? last); [reflexivity|].
+      rewrite Hnext. unfold slotK at 1 2. rewrite rem_inc by lia.
+      replace (Z.of_nat k + 1) with (Z.of_nat (S k)) by lia. fold (slotK n (S k)).
+      apply IH; lia.
+  Qed.
+End RcLoop.
+
+(* ring_check from slot(a): dies iff the events a .. len-1 of the file are not in clock order (from 0) *)
+Lemma ring_check_gen n len a sx st :
+  (2 <= n)%nat -> Rep n len (ring st) -> (len - remembered n len <= a <= len)%nat -> (len <= length (file st))%nat ->
+  Winsort_gen.ring_check (Some tt) (slotK n a) sx st =
+  if sorted_from 0 (firstn (len - a) (skipn a (file st))) then Done tt st else Fail E_DIE.
+Proof.
+  intros Hn R Ha Hfl.
+  pose proof (rep_tailZ _ _ _ R) as Ht. pose proof (rp_size _ _ _ R) as Hs.
+  assert (Hc : (remembered n len <= n - 1)%nat) by (unfold remembered; lia).
+  unfold Winsort_gen.ring_check.
+  unfold need, ite, bind, eval, ret, fail, for_loop. cbn [is_null negb andb].
+  unfold get_ring_tail, get_ring_size, get_ring_ev.
+  change (cast_uint64 0) with 0.
+  match goal with |- context [for_go ?f ?cd ?nx ?bd _ _ sx st] =>
+    pose proof (rc_loop n len a sx st cd nx bd Hn ltac:(lia) Hfl) as L
   end.
+  specialize (L ltac:(intros i; cbv beta; rewrite Ht; reflexivity)).
+  specialize (L ltac:(intros i; cbv beta; rewrite Hs; reflexivity)).
+  assert (Hb : forall k last, (a <= k < len)%nat ->
+    (fun (i : Z) (c_ : Z) => let last_clock := c_ in
+       fun (sx0 : wenv) (st0 : wstate_c) =>
+         if negb (is_null (ix_ptr_ev (r_ev (ring st0)) i)) then
+           (fun (sx1 : wenv) (st1 : wstate_c) =>
+              if get_ovni_ev_header_clock sx1 st1 (ix_ptr_ev (r_ev (ring st1)) i) <? last_clock then Fail E_DIE
+              else Done (LCont (get_ovni_ev_header_clock sx1 st1 (ix_ptr_ev (r_ev (ring st1)) i))) st1) sx0 st0
+         else Fail E_TRAP) (slotK n k) last sx st =
+    if clock (nth k (file st) ev0) <? last then Fail E_DIE else Done (LCont (clock (nth k (file st) ev0))) st).
+  { intros k last Hk. cbv beta zeta. rewrite (rep_entryK n len (ring st) k R) by lia. reflexivity. }
+  specialize (L Hb (len - a)%nat a (loop_fuel sx st) 0 ltac:(lia) ltac:(lia)
+                ltac:(unfold loop_fuel; rewrite Hs, Nat2Z.id; lia)).
+  destruct (sorted_from 0 (firstn (len - a) (skipn a (file st)))).
+  - destruct L as [last' L]. rewrite L. reflexivity.
+  - rewrite L. reflexivity.
+Qed.
+
+(* bytes and events *)
+Lemma total_size_app l1 l2 : total_size (l1 ++ l2) = total_size l1 + total_size l2.
+Proof. unfold total_size. induction l1 as [|e t IH]; cbn [app fold_right]; [reflexivity|]. rewrite IH. lia. Qed.
+
+Lemma firstn_add {A} (l : list A) a w : firstn (a + w) l = firstn a l ++ firstn w (skipn a l).
+Proof.
+  revert l. induction a as [|a IH]; intros l; [reflexivity|].
+  destruct l as [|x t]; cbn [Nat.add firstn skipn app]; [rewrite firstn_nil; reflexivity|]. rewrite IH. reflexivity.
+Qed.
+
+Definition sizes_ok (l : list ev) : Prop := Forall (fun e => 0 < esize e) l.
+
+Lemma total_size_nonneg l : sizes_ok l -> 0 <= total_size l.
+Proof. unfold total_size. induction 1; cbn [fold_right]; lia. Qed.
+
+Lemma take_bytes_exact l : sizes_ok l -> forall w, (w <= length l)%nat ->
+  take_bytes l (total_size (firstn w l)) = Some (firstn w l).
+Proof.
+  induction 1 as [|e t He Ht IH]; intros w Hw.
+  - destruct w; reflexivity.
+  - destruct w as [|w]; [reflexivity|]. cbn [firstn total_size fold_right length] in *. fold (total_size (firstn w t)).
+    pose proof (total_size_nonneg (firstn w t)) as Hnn.
+    assert (sizes_ok (firstn w t)) by (apply WinsortProofs.Forall_firstn'; exact Ht). specialize (Hnn H).
+    cbn [take_bytes].
+    destruct (Z.eqb_spec (esize e + total_size (firstn w t)) 0); [lia|].
+    destruct (Z.leb_spec (esize e) (esize e + total_size (firstn w t))); [|lia].
+    replace (esize e + total_size (firstn w t) - esize e) with (total_size (firstn w t)) by lia.
+    rewrite IH by lia. reflexivity.
+Qed.
+
+(* the processed prefix of the model (newest first) is the first len events of the file *)
+Definition Abs (st : wstate_c) (len : nat) (rd : list ev) : Prop :=
+  rd = rev (firstn len (file st)) /\ (len <= length (file st))%nat.
+
+Lemma abs_length st len rd : Abs st len rd -> length rd = len.
+Proof. intros [-> H]. rewrite rev_length, firstn_length. lia. Qed.
+
+Lemma abs_nth st len rd : Abs st len rd -> forall j, (j < len)%nat -> nth j rd ev0 = nth (len - 1 - j) (file st) ev0.
+Proof.
+  intros [-> H] j Hj. rewrite rev_nth by (rewrite firstn_length; lia).
+  rewrite firstn_length, Nat.min_l by lia. rewrite nth_firstn_lt by lia. f_equal. lia.
+Qed.
+
+(* the k / w newest processed events, oldest first, are a slice of the file *)
+Lemma abs_slice st len rd w : Abs st len rd -> (w <= len)%nat ->
+  rev (firstn w rd) = firstn w (skipn (len - w) (file st)) /\ skipn w rd = rev (firstn (len - w) (file st)).
+Proof.
+  intros [-> H] Hw. split.
+  - rewrite firstn_rev, rev_involutive, firstn_length, Nat.min_l by lia.
+    rewrite skipn_firstn_comm. f_equal. lia.
+  - rewrite skipn_rev, firstn_length, Nat.min_l by lia. rewrite firstn_firstn. f_equal. f_equal. lia.
+Qed.
+
+Lemma cast_uint64_small z : 0 <= z < 2 ^ 64 -> cast_uint64 z = z.
+Proof. intros H. unfold cast_uint64. apply wrapu_small. exact H. Qed.
+Lemma cast_int64_small' z : - 2 ^ 63 <= z < 2 ^ 63 -> cast_int64 z = z.
+Proof. intros H. unfold cast_int64. apply wraps_small; [lia|]. exact H. Qed.
+
+Lemma sizes_firstn k l : sizes_ok l -> sizes_ok (firstn k l).
+Proof. apply WinsortProofs.Forall_firstn'. Qed.
+Lemma sizes_skipn k l : sizes_ok l -> sizes_ok (skipn k l).
+Proof.
+  unfold sizes_ok. rewrite !Forall_forall. intros H x Hx. apply H.
+  rewrite <- (firstn_skipn k l). apply in_or_app. auto.
+Qed.
+Lemma sizes_app l1 l2 : sizes_ok l1 -> sizes_ok l2 -> sizes_ok (l1 ++ l2).
+Proof. unfold sizes_ok. intros. apply Forall_app. auto. Qed.
+Lemma sizes_perm l l' : Permutation l l' -> sizes_ok l -> sizes_ok l'.
+Proof. unfold sizes_ok. intros P H. rewrite Forall_forall in *. intros x Hx. apply H. eapply Permutation_in; [apply Permutation_sym; exact P|exact Hx]. Qed.
+
+Lemma overwrite_facts (f : list ev) a w sorted :
+  (a + w <= length f)%nat -> Permutation (firstn w (skipn a f)) sorted ->
+  let f' := firstn a f ++ sorted ++ skipn (a + length sorted) f in
+  firstn (a + w) f' = firstn a f ++ sorted /\ skipn (a + w) f' = skipn (a + w) f /\
+  length f' = length f /\ total_size f' = total_size f /\ (sizes_ok f -> sizes_ok f').
+Proof.
+  intros Hl P f'.
+  assert (Hls : length sorted = w).
+  { rewrite <- (Permutation_length P), firstn_length, skipn_length. lia. }
+  assert (Hla : length (firstn a f) = a) by (rewrite firstn_length; lia).
+  assert (Ef : f = firstn a f ++ firstn w (skipn a f) ++ skipn (a + w) f).
+  { rewrite app_assoc, <- firstn_add. symmetry. apply firstn_skipn. }
+  unfold f'. rewrite Hls. repeat split.
+  - rewrite app_assoc. replace (a + w)%nat with (length (firstn a f ++ sorted) + 0)%nat by (rewrite app_length; lia).
+    rewrite firstn_app_2. cbn [firstn]. rewrite app_nil_r. reflexivity.
+  - rewrite app_assoc. rewrite skipn_app. rewrite skipn_all2 by (rewrite app_length; lia).
+    rewrite app_length, Hla, Hls, Nat.sub_diag. reflexivity.
+  - rewrite !app_length, Hla, Hls, skipn_length. lia.
+  - rewrite !total_size_app. rewrite <- (WinsortProofs.total_size_perm _ _ P). rewrite <- !total_size_app, <- Ef. reflexivity.
+  - intros Hs. apply sizes_app; [apply sizes_firstn; exact Hs|]. apply sizes_app; [|apply sizes_skipn; exact Hs].
+    apply (sizes_perm _ _ P). apply sizes_firstn, sizes_skipn. exact Hs.
+Qed.
+
+Theorem execute_sort_plan_gen n len k sx st rd :
+  (2 <= n)%nat -> Rep n len (ring st) -> Abs st len rd -> (1 <= k <= len)%nat ->
+  sp_bad0 (plan st) = Some (len - k)%nat -> sp_next (plan st) = Some len ->
+  sizes_ok (file st) -> total_size (file st) < 2 ^ 63 ->
+  match exec_plan_r n k rd with
+  | PlanNoDest => Winsort_gen.execute_sort_plan (Some tt) sx st = Fail E_FAIL
+  | PlanDie _ => Winsort_gen.execute_sort_plan (Some tt) sx st = Fail E_DIE
+  | PlanOk rd' =>
+      exists st', Winsort_gen.execute_sort_plan (Some tt) sx st = Done tt st' /\
+        ring st' = ring st /\ plan st' = plan st /\ Abs st' len rd' /\
+        skipn len (file st') = skipn len (file st) /\ length (file st') = length (file st) /\
+        sizes_ok (file st') /\ total_size (file st') = total_size (file st)
+  end.
+Proof.
+  intros Hn R A Hk Hb Hnx Hsz Htot.
+  pose proof (abs_length _ _ _ A) as Hrd. pose proof (abs_nth _ _ _ A) as Habs.
+  destruct A as [Erd Hfl]. assert (A : Abs st len rd) by (split; assumption).
+  unfold exec_plan_r.
+  destruct (abs_slice st len rd k A ltac:(lia)) as [Ebody _]. rewrite Ebody.
+  assert (Ebtw : firstn k (skipn (len - k) (file st)) = between st (Some (len - k)%nat) (Some len)).
+  { unfold between, idx. f_equal. lia. }
+  rewrite Ebtw. set (mc := min_clock (between st (Some (len - k)%nat) (Some len))).
+  destruct (WinsortDefs.find_destination n rd mc) as [w|] eqn:FD.
+  2:{ apply (execute_sort_plan_nodest n len sx st rd (len - k)%nat); auto; lia. }
+  destruct (find_destination_gen n len sx st rd mc Hn R ltac:(lia) Hrd Habs) as [i0 [E1 E2]].
+  rewrite FD in E2. destruct E2 as (Hi0 & Hix & Hw & Hslot & Hwc).
+  destruct (abs_slice st len rd w A ltac:(lia)) as [Ewin Eskip]. rewrite Ewin, Eskip.
+  set (a := (len - w)%nat) in *.
+  set (window := firstn w (skipn a (file st))).
+  assert (Hmc : mc <= clock (nth (len - k) (file st) ev0)).
+  { unfold mc, between, idx. rewrite (skipn_nth_cons (file st) ev0 (len - k)) by lia.
+    destruct (len - (len - k))%nat as [|k'] eqn:E; [lia|]. cbn [firstn]. apply min_clock_head_le. }
+  (* sizes *)
+  assert (Hlenw : length window = w) by (unfold window; rewrite firstn_length, skipn_length; lia).
+  assert (Esplit : firstn len (file st) = firstn a (file st) ++ window).
+  { unfold window. replace len with (a + w)%nat at 1 by lia. apply firstn_add. }
+  assert (Hwpos : 0 < total_size window).
+  { unfold window. destruct w as [|w']; [lia|].
+    rewrite (skipn_nth_cons (file st) ev0 a) by lia. cbn [firstn total_size fold_right].
+    assert (0 < esize (nth a (file st) ev0)).
+    { unfold sizes_ok in Hsz. rewrite Forall_forall in Hsz. apply Hsz. apply nth_In. lia. }
+    pose proof (total_size_nonneg (firstn w' (skipn (S a) (file st))) (sizes_firstn _ _ (sizes_skipn _ _ Hsz))) as Hnn.
+    unfold total_size in Hnn. lia. }
+  assert (Hwle : total_size window <= total_size (file st)).
+  { replace (total_size (file st)) with (total_size (firstn len (file st) ++ skipn len (file st))) by (rewrite firstn_skipn; reflexivity).
+    rewrite total_size_app, Esplit, total_size_app.
+    pose proof (total_size_nonneg _ (sizes_firstn a _ Hsz)).
+    pose proof (total_size_nonneg _ (sizes_skipn len _ Hsz)). lia. }
+  assert (Ebuf : cast_uint64 (total_size (firstn len (file st)) - total_size (firstn a (file st))) = total_size window).
+  { rewrite Esplit, total_size_app. replace (total_size (firstn a (file st)) + total_size window - total_size (firstn a (file st))) with (total_size window) by lia.
+    apply cast_uint64_small. change (2 ^ 64) with 18446744073709551616. change (2 ^ 63) with 9223372036854775808 in Htot. lia. }
+  set (sorted := isort_by clock window).
+  assert (Psort : Permutation window sorted) by apply WinsortProofs.isort_perm.
+  assert (Hlens : length sorted = w) by (rewrite <- (Permutation_length Psort); exact Hlenw).
+  assert (Etot : total_size sorted = total_size window) by (symmetry; apply WinsortProofs.total_size_perm; exact Psort).
+  set (file' := firstn a (file st) ++ sorted ++ skipn (a + length sorted) (file st)).
+  set (st3 := mk_wc file' (ring st) (plan st) sorted).
+  assert (Eexec : Winsort_gen.execute_sort_plan (Some tt) sx st = if ring_check sorted then Done tt st3 else Fail E_DIE).
+  { unfold Winsort_gen.execute_sort_plan.
+    unfold need, ite, bind, bind_, eval, ret, fail. cbn [is_null negb andb].
+    unfold get_sortplan_bad0, get_sortplan_next, get_sortplan_bad0_header_clock, get_sortplan_r, get_sortplan_r_ev,
+      get_sortplan_fd, get_sortplan_base, find_min_clock.
+    rewrite Hb, Hnx. cbn [is_null negb andb ev_at]. fold mc.
+    assert (Common : forall c0, c0 = mc ->
+      match Winsort_gen.find_destination (Some tt) c0 sx st with Done i st' => Done i st' | Fail e => Fail e end = Done i0 st).
+    { intros c0 ->. rewrite E1. reflexivity. }
+    destruct (Z.ltb_spec mc (clock (nth (len - k) (file st) ev0))) as [Hlt|Hge].
+    all: [> rewrite E1 | replace (clock (nth (len - k) (file st) ev0)) with mc by lia; rewrite E1 ].
+    all: destruct (Z.ltb_spec i0 0); [lia|].
+    all: rewrite Hix; cbn [is_null negb andb]; unfold ptr_addr; rewrite Hnx, Ebuf.
+    all: change (cast_uint64 0) with 0; destruct (Z.leb_spec (total_size window) 0); [lia|].
+    all: unfold malloc, ret; cbn [is_null negb]; unfold bind.
+    all: unfold sort_buf; rewrite cast_int64_small' by (change (2 ^ 63) with 9223372036854775808 in *; lia).
+    all: unfold window at 1; rewrite (take_bytes_exact (skipn a (file st)) (sizes_skipn _ _ Hsz) w) by (rewrite skipn_length; lia).
+    all: fold window; fold sorted.
+    all: unfold write_stream; cbn [scratch file ring plan]; rewrite Etot, Z.eqb_refl; fold file'; fold st3.
+    all: unfold free, ret, rebuild_ring; cbn [plan st3]; rewrite Hnx.
+    all: replace i0 with (slotK n a) by (unfold slotK, a; symmetry; exact Hslot).
+    all: change (ring st3) with (ring st); assert (Hc1 : (remembered n len <= n - 1)%nat) by (unfold remembered; lia).
+    all: rewrite (rebuild_id n len (ring st) R w a) by (try (rewrite (rp_size _ _ _ R), Nat2Z.id); lia).
+    all: change (with_ring st3 (ring st)) with st3.
+    all: rewrite (ring_check_gen n len a sx st3 Hn R) by (try (unfold st3, file'; cbn [file]; rewrite !app_length, firstn_length, skipn_length); lia).
+    all: replace (firstn (len - a) (skipn a (file st3))) with sorted; [unfold ring_check; destruct (sorted_from 0 sorted); reflexivity|].
+    all: unfold st3, file'; cbn [file]; rewrite skipn_app, firstn_length, Nat.min_l by lia.
+    all: rewrite skipn_all2 by (rewrite firstn_length; lia); rewrite Nat.sub_diag; cbn [skipn app].
+    all: rewrite firstn_app, Hlens; replace (len - a)%nat with w by lia; rewrite firstn_all2 by lia.
+    all: rewrite Nat.sub_diag; cbn [firstn]; rewrite app_nil_r; reflexivity. }
+  rewrite Eexec.
+  destruct (overwrite_facts (file st) a w sorted ltac:(lia) Psort) as (F1 & F2 & F3 & F4 & F5).
+  replace (a + w)%nat with len in F1, F2 by lia. fold file' in F1, F2, F3, F4, F5.
+  destruct (ring_check sorted); [|reflexivity].
+  exists st3. split; [reflexivity|]. split; [reflexivity|]. split; [reflexivity|].
+  unfold Abs, st3. cbn [file]. repeat split; auto.
+  - rewrite F1, rev_app_distr. reflexivity.
+  - lia.
+Qed.
+
+(* ------------------------------------------------------------------ (4) the per-event body of stream_winsort = the region machine *)
+
+(* the char state and the plan markers against the model's region state *)
+Definition StRel (st : wstate_c) (len : nat) (s : Z) (ws : wst) : Prop :=
+  (s = 83 /\ ws = WS) \/ (s = 85 /\ ws = WU) \/
+  (exists k, s = 88 /\ ws = WX k /\ (1 <= k <= len)%nat /\ sp_bad0 (plan st) = Some (len - k)%nat).
+
+Record Inv (n : nat) (st : wstate_c) (len : nat) (w : wstate) (c : Z * Z * Z) : Prop := {
+  iv_rep : Rep n len (ring st);
+  iv_abs : Abs st len (w_rd w);
+  iv_sizes : sizes_ok (file st);
+  iv_total : total_size (file st) < 2 ^ 63;
+  iv_st : StRel st len (fst (fst c)) (w_st w)
+}.
+
+Lemma b2z_test (b : bool) : negb (b2z b =? 0) = b.
+Proof. destruct b; reflexivity. Qed.
+
+Lemma starts_gen k st : Winsort_gen.starts_unsorted_region (Some k) st (Some k) = b2z (starts_unsorted_region (nth k (file st) ev0)).
+Proof. reflexivity. Qed.
+Lemma ends_gen k st : Winsort_gen.ends_unsorted_region (Some k) st (Some k) = b2z (ends_unsorted_region (nth k (file st) ev0)).
+Proof. reflexivity. Qed.
+Lemma starts_safe k st : Winsort_gen.starts_unsorted_region_safe (Some k) st (Some k) = true.
+Proof. unfold Winsort_gen.starts_unsorted_region_safe. cbn [is_null negb]. rewrite !if_same. reflexivity. Qed.
+Lemma ends_safe k st : Winsort_gen.ends_unsorted_region_safe (Some k) st (Some k) = true.
+Proof. unfold Winsort_gen.ends_unsorted_region_safe. cbn [is_null negb]. rewrite !if_same. reflexivity. Qed.
+
+Lemma firstn_S_snoc {A} (l : list A) d : forall k, (k < length l)%nat -> firstn (S k) l = firstn k l ++ [nth k l d].
+Proof.
+  induction l as [|a t IH]; intros [|k] H; cbn [length] in H; try lia; [reflexivity|].
+  change (firstn (S (S k)) (a :: t)) with (a :: firstn (S k) t). rewrite IH by lia. reflexivity.
+Qed.
 
 Theorem ring_from_source :
   (forall sx st n, (1 <= n)%nat -> r_size (ring st) = Z.of_nat n -> length (r_ev (ring st)) = n ->
@@ -396,4 +717,234 @@ Proof.
   - intros sx st n Hn Hs Hl. eexists. split; [apply ring_reset_gen|]. apply rep_reset; assumption.
   - intros sx st n len R. exists (m_ring_add (ring st) (Some len)). split; [|apply rep_add; exact R].
     apply ring_add_gen. destruct R as [Hn _ Hl (q & t & _ & Ht & Htail) _ _]. rewrite Htail, Hl. lia.
+Qed.
+
+(* ring_add of the delivered event moves the whole invariant one event forward *)
+Lemma add_step n st len rd sx :
+  Rep n len (ring st) -> Abs st len rd -> (len < length (file st))%nat ->
+  exists st', Winsort_gen.ring_add (Some tt) (Some len) sx st = Done tt st' /\
+    Rep n (S len) (ring st') /\ file st' = file st /\ plan st' = plan st /\
+    Abs st' (S len) (nth len (file st) ev0 :: rd).
+Proof.
+  intros R [-> Hfl] Hlt.
+  destruct ring_from_source as [_ Hadd]. destruct (Hadd sx st n len R) as [g [E Rg]].
+  exists (with_ring st g). split; [exact E|]. split; [exact Rg|]. split; [reflexivity|]. split; [reflexivity|].
+  split; [|cbn [with_ring file]; lia]. cbn [with_ring file].
+  rewrite (firstn_S_snoc (file st) ev0 len Hlt), rev_app_distr. reflexivity.
+Qed.
+
+Lemma nth_hd_skipn {A} (l : list A) d : forall k, nth k l d = hd d (skipn k l).
+Proof. induction l as [|a t IH]; intros [|k]; cbn [nth skipn hd]; auto. Qed.
+
+Lemma nth_of_skipn {A} (l l' : list A) d k : skipn k l = skipn k l' -> nth k l d = nth k l' d.
+Proof. intros E. rewrite !nth_hd_skipn, E. reflexivity. Qed.
+
+Lemma skipn_S_tl {A} (l : list A) : forall k, skipn (S k) l = tl (skipn k l).
+Proof. induction l as [|a t IH]; intros [|k]; cbn [skipn tl]; auto. rewrite <- IH. reflexivity. Qed.
+
+Lemma skipn_S_of {A} (l l' : list A) k : skipn k l = skipn k l' -> skipn (S k) l = skipn (S k) l'.
+Proof. intros E. rewrite !skipn_S_tl, E. reflexivity. Qed.
+
+Lemma finish_add n st len rd sx c' ws' :
+  Rep n len (ring st) -> Abs st len rd -> sizes_ok (file st) -> total_size (file st) < 2 ^ 63 ->
+  (len < length (file st))%nat ->
+  (forall st', plan st' = plan st -> StRel st' (S len) (fst (fst c')) ws') ->
+  exists st', bind_ (Winsort_gen.ring_add (Some tt) (Some len)) (ret (LCont c')) sx st = Done (LCont c') st' /\
+    Inv n st' (S len) (mkw ws' (nth len (file st) ev0 :: rd)) c' /\ file st' = file st.
+Proof.
+  intros R A Hsz Htot Hlt HS.
+  destruct (add_step n st len rd sx R A Hlt) as (st' & E & R' & Ef & Ep & A').
+  exists st'. unfold bind_, bind, ret. rewrite E. split; [reflexivity|]. split; [|exact Ef].
+  constructor; cbn [w_rd w_st]; auto; try (rewrite Ef; assumption).
+Qed.
+
+Theorem body_step n st len w c :
+  (2 <= n)%nat -> Inv n st len w c -> (len < length (file st))%nat ->
+  match wstep n w (nth len (file st) ev0), Winsort_gen.stream_winsort_body (Some tt) (Some tt) c (Some len) st with
+  | Some w', Done (LCont c') st' =>
+      Inv n st' (S len) w' c' /\ skipn (S len) (file st') = skipn (S len) (file st) /\
+      length (file st') = length (file st)
+  | None, Fail _ => True
+  | _, _ => False
+  end.
+Proof.
+  intros Hn [R A Hsz Htot HS] Hlt. destruct c as [[s er] up]. destruct w as [ws rd]. cbn [fst w_rd w_st] in *.
+  set (e := nth len (file st) ev0).
+  unfold Winsort_gen.stream_winsort_body. unfold bind, eval, need, ite, stream_ev.
+  rewrite ?starts_safe, ?ends_safe, ?starts_gen, ?ends_gen, ?b2z_test. fold e. rewrite ?if_same.
+  unfold wstep. cbn [w_st w_rd].
+  destruct HS as [[-> ->]|[[-> ->]|(k & -> & -> & Hk & Hb)]].
+  - (* S *)
+    change (83 =? 83) with true. change (83 =? 85) with false. change (83 =? 88) with false. cbn [andb].
+    destruct (starts_unsorted_region e).
+    + change (cast_int8 85) with 85.
+      destruct (finish_add n st len rd (Some len) (85, er, up) WU R A Hsz Htot Hlt) as (st' & E & I & Ef).
+      { intros st' _. right. left. split; reflexivity. }
+      unfold bind_, bind, ret in E. unfold bind_, bind, ret. rewrite E. rewrite Ef. auto.
+    + destruct (finish_add n st len rd (Some len) (83, er, up) WS R A Hsz Htot Hlt) as (st' & E & I & Ef).
+      { intros st' _. left. split; reflexivity. }
+      unfold bind_, bind, ret in E. unfold bind_, bind, ret. rewrite E. rewrite Ef. auto.
+  - (* U *)
+    change (85 =? 83) with false. change (85 =? 85) with true. cbn [andb].
+    destruct (ends_unsorted_region e).
+    + change (cast_int8 83) with 83.
+      destruct (finish_add n st len rd (Some len) (83, cast_uint64 (er + 1), up) WS R A Hsz Htot Hlt) as (st' & E & I & Ef).
+      { intros st' _. left. split; reflexivity. }
+      unfold bind_, bind, ret in E. unfold bind_, bind, ret. rewrite E. rewrite Ef. auto.
+    + change (cast_int8 88) with 88. unfold bind_ at 1. unfold bind at 1. unfold set_sortplan_bad0, sp_local, putsp.
+      set (st1 := mk_wc (file st) (ring st) (mk_csp (Some len) (sp_next (plan st)) (sp_fd (plan st))) (scratch st)).
+      destruct (finish_add n st1 len rd (Some len) (88, er, up) (WX 1) R A Hsz Htot Hlt) as (st' & E & I & Ef).
+      { intros st' Hp. right. right. exists 1%nat. repeat split; try lia. rewrite Hp. cbn [plan st1 sp_bad0]. f_equal. lia. }
+      rewrite E. rewrite Ef. auto.
+  - (* X *)
+    change (88 =? 83) with false. change (88 =? 85) with false. change (88 =? 88) with true. cbn [andb].
+    destruct (ends_unsorted_region e).
+    + unfold bind_ at 1. unfold bind at 1. unfold set_sortplan_next at 1. unfold sp_local, putsp. cbv beta iota.
+      set (st1 := mk_wc (file st) (ring st) (mk_csp (sp_bad0 (plan st)) (Some len) (sp_fd (plan st))) (scratch st)).
+      pose proof (execute_sort_plan_gen n len k (Some len) st1 rd Hn R A Hk Hb eq_refl Hsz Htot) as X.
+      unfold exec_plan. destruct (exec_plan_r n k rd) as [rd'| |rd'].
+      * destruct X as (st2 & E2 & Er & Ep & A2 & Fs & Fl & Fz & Ft).
+        unfold bind_ at 1. unfold bind at 1. rewrite E2.
+        unfold bind_ at 1. unfold bind at 1. unfold set_sortplan_next, putsp.
+        unfold bind_ at 1. unfold bind at 1. unfold set_sortplan_bad0, putsp. cbn [plan sp_bad0 sp_next sp_fd file ring scratch].
+        change (cast_int8 83) with 83.
+        set (st3 := mk_wc (file st2) (ring st2) (mk_csp None None (sp_fd (plan st2))) (scratch st2)).
+        assert (R3 : Rep n len (ring st3)) by (cbn [st3 ring]; rewrite Er; exact R).
+        assert (Hlt3 : (len < length (file st3))%nat) by (cbn [st3 file]; rewrite Fl; exact Hlt).
+        destruct (finish_add n st3 len rd' (Some len) (83, er, cast_uint64 1) WS R3 A2 Fz ltac:(cbn [st3 file]; rewrite Ft; exact Htot) Hlt3)
+          as (st' & E & I & Ef).
+        { intros st' _. left. split; reflexivity. }
+        rewrite E. cbn [st3 file] in I, Ef.
+        rewrite (nth_of_skipn (file st2) (file st) ev0 len Fs) in I. fold e in I.
+        split; [exact I|]. rewrite Ef. split; [apply skipn_S_of; exact Fs|exact Fl].
+      * unfold bind_, bind, set_sortplan_next, putsp. cbv beta iota. fold st1. rewrite X. exact I.
+      * unfold bind_, bind, set_sortplan_next, putsp. cbv beta iota. fold st1. rewrite X. exact I.
+    + destruct (finish_add n st len rd (Some len) (88, er, up) (WX (S k)) R A Hsz Htot Hlt) as (st' & E & I & Ef).
+      { intros st' Hp. right. right. exists (S k). repeat split; try lia. rewrite Hp, Hb. reflexivity. }
+      unfold bind_, bind, ret in E. unfold bind_, bind, ret. rewrite E. rewrite Ef. auto.
+Qed.
+
+(* ------------------------------------------------------------------ whole streams *)
+
+Notation gen_step := (run_step Winsort_gen.stream_winsort_body).
+
+Lemma fold_fail {C} (body : ptr_stream -> ptr_ring -> C -> M (lres C)) l e : fold_left (run_step body) l (Fail e) = Fail e.
+Proof. induction l as [|k t IH]; cbn [fold_left run_step]; auto. Qed.
+
+Lemma run_fold n : (2 <= n)%nat -> forall rest st len w c,
+  Inv n st len w c -> skipn len (file st) = rest ->
+  match wrun n w rest, fold_left gen_step (seq len (length rest)) (Done c st) with
+  | Some w', Done c' st' => Inv n st' (len + length rest) w' c' /\ length (file st') = length (file st)
+  | None, Fail _ => True
+  | _, _ => False
+  end.
+Proof.
+  intros Hn. induction rest as [|e t IH]; intros st len w c I Hr.
+  - cbn [wrun length seq fold_left]. rewrite Nat.add_0_r. auto.
+  - assert (Hlt : (len < length (file st))%nat).
+    { pose proof (f_equal (@length ev) Hr) as HL. rewrite skipn_length in HL. cbn [length] in HL. lia. }
+    assert (He : nth len (file st) ev0 = e /\ skipn (S len) (file st) = t).
+    { rewrite (skipn_nth_cons (file st) ev0 len Hlt) in Hr. inversion Hr. auto. }
+    destruct He as [He Ht].
+    cbn [wrun length seq fold_left].
+    change (gen_step (Done c st) len) with
+      (match Winsort_gen.stream_winsort_body (Some tt) (Some tt) c (Some len) st with
+       | Done (LCont c') st' => Done c' st' | Done (LRet _) _ => Fail E_TRAP | Fail x => Fail x end).
+    pose proof (body_step n st len w c Hn I Hlt) as B. rewrite He in B.
+    destruct (wstep n w e) as [w'|].
+    + destruct (Winsort_gen.stream_winsort_body (Some tt) (Some tt) c (Some len) st) as [[v|c'] st'|x]; try contradiction.
+      destruct B as (I' & Fs & Fl).
+      specialize (IH st' (S len) w' c' I' ltac:(rewrite Fs; exact Ht)).
+      destruct (wrun n w' t) as [w''|].
+      * destruct (fold_left gen_step (seq (S len) (length t)) (Done c' st')) as [c'' st''|x]; [|contradiction].
+        destruct IH as [I'' L'']. split; [|lia]. replace (len + S (length t))%nat with (S len + length t)%nat by lia. exact I''.
+      * exact IH.
+    + destruct (Winsort_gen.stream_winsort_body (Some tt) (Some tt) c (Some len) st) as [[v|c'] st'|x]; try contradiction.
+      rewrite fold_fail. constructor.
+Qed.
+
+(* ovnisort -n n on one stream, from the source: ring_reset, then the fold of the translated body *)
+Definition gen_winsort (n : nat) (evs : list ev) : option (list ev) :=
+  match evs with
+  | [] => empty_stream_result
+  | _ => run_winsort Winsort_gen.ring_reset Winsort_gen.stream_winsort_body Winsort_gen.stream_winsort_init n evs
+  end.
+
+Theorem winsort_from_source n evs :
+  (2 <= n)%nat -> sizes_ok evs -> total_size evs < 2 ^ 63 -> gen_winsort n evs = winsort n evs.
+Proof.
+  intros Hn Hsz Htot. unfold gen_winsort, winsort. destruct evs as [|e0 t]; [reflexivity|].
+  set (evs := e0 :: t) in *. unfold run_winsort.
+  rewrite ring_reset_gen. set (st1 := with_ring _ _).
+  assert (I : Inv n st1 0 winit Winsort_gen.stream_winsort_init).
+  { constructor.
+    - apply rep_reset; [lia|reflexivity|]. cbn. apply repeat_length.
+    - split; [reflexivity|lia].
+    - exact Hsz.
+    - exact Htot.
+    - left. split; reflexivity. }
+  pose proof (run_fold n Hn evs st1 0%nat winit Winsort_gen.stream_winsort_init I eq_refl) as F.
+  change (file st1) with evs in F.
+  destruct (wrun n winit evs) as [w'|].
+  - destruct (fold_left gen_step (seq 0 (length evs)) (Done Winsort_gen.stream_winsort_init st1)) as [c' st'|x]; [|contradiction].
+    destruct F as [[_ [Ea Hl] _ _ _] Fl]. cbn [Nat.add] in Ea. rewrite Ea, rev_involutive.
+    rewrite firstn_all2 by (change (file st1) with evs in Fl; lia). reflexivity.
+  - destruct (fold_left gen_step (seq 0 (length evs)) (Done Winsort_gen.stream_winsort_init st1)) as [c' st'|x]; [contradiction|reflexivity].
+Qed.
+
+(* the C16 theorems apply to the generated code *)
+Theorem gen_sorts n evs : (2 <= n)%nat -> sizes_ok evs -> total_size evs < 2 ^ 63 ->
+  pre n evs -> gen_winsort n evs = Some (ssort evs).
+Proof. intros. rewrite winsort_from_source by assumption. apply WinsortProofs.winsort_is_ssort. assumption. Qed.
+
+Theorem gen_postconditions n evs out : (2 <= n)%nat -> sizes_ok evs -> total_size evs < 2 ^ 63 ->
+  pre n evs -> gen_winsort n evs = Some out ->
+  Permutation evs out /\ sorted out /\ stable evs out /\ prefix_untouched evs out /\
+  length out = length evs /\ total_size out = total_size evs /\
+  check_mode out = true /\
+  (Forall (fun e => clk_ok e = true) evs -> loader_accepts out = true).
+Proof. intros Hn Hs Ht Hp E. rewrite winsort_from_source in E by assumption. exact (WinsortProofs.winsort_post n evs out Hp E). Qed.
+
+Theorem gen_never_loses n evs out : (2 <= n)%nat -> sizes_ok evs -> total_size evs < 2 ^ 63 ->
+  gen_winsort n evs = Some out -> Permutation evs out /\ total_size out = total_size evs.
+Proof. intros Hn Hs Ht E. rewrite winsort_from_source in E by assumption. exact (WinsortProofs.winsort_permutation_always n evs out E). Qed.
+
+(* ------------------------------------------------------------------ stream_check (-c) = check_mode *)
+
+Definition gen_check (evs : list ev) : bool :=
+  run_check Winsort_gen.stream_check_init Winsort_gen.stream_check_body Winsort_gen.stream_check_end evs.
+
+Lemma check_fold st : forall m k p bj last, (k + m <= length (file st))%nat ->
+  exists p' bj' last',
+    fold_left (run_cstep Winsort_gen.stream_check_body) (seq k m) (Done (p, bj, last) st) = Done (p', bj', last') st /\
+    (bj' =? 0) = ((bj =? 0) && sorted_from last (firstn m (skipn k (file st)))).
+Proof.
+  induction m as [|m IH]; intros k p bj last Hk.
+  - cbn [seq fold_left firstn sorted_from]. exists p, bj, last. rewrite andb_true_r. auto.
+  - cbn [seq fold_left]. rewrite (skipn_nth_cons (file st) ev0 k) by lia. cbn [firstn sorted_from].
+    assert (Es : run_cstep Winsort_gen.stream_check_body (Done (p, bj, last) st) k =
+      (if clock (nth k (file st) ev0) <? last
+       then Done (Some k, 1, clock (nth k (file st) ev0)) st
+       else Done (Some k, bj, clock (nth k (file st) ev0)) st)).
+    { unfold run_cstep, Winsort_gen.stream_check_body, bind, eval, ite, ret, stream_ev, ovni_ev_get_clock, ev_at.
+      destruct (clock (nth k (file st) ev0) <? last); reflexivity. }
+    rewrite Es. clear Es.
+    destruct (clock (nth k (file st) ev0) <? last).
+    + destruct (IH (S k) (Some k) 1 (clock (nth k (file st) ev0)) ltac:(lia)) as (p' & bj' & last' & E & B).
+      exists p', bj', last'. split; [exact E|]. rewrite B. cbn [Z.eqb andb]. rewrite andb_false_r. reflexivity.
+    + destruct (IH (S k) (Some k) bj (clock (nth k (file st) ev0)) ltac:(lia)) as (p' & bj' & last' & E & B).
+      exists p', bj', last'. split; [exact E|exact B].
+Qed.
+
+Theorem check_from_source evs : gen_check evs = check_mode evs.
+Proof.
+  unfold gen_check, run_check, check_mode. destruct evs as [|e t]; [reflexivity|].
+  set (st0 := winsort_state0 1 (e :: t)).
+  change (Winsort_gen.stream_check_init (Some tt) (Some 0%nat) st0) with (Done (LCont ((Some 0%nat : ptr_ev), 0, clock e)) st0).
+  cbn [length]. replace (S (length t) - 1)%nat with (length t) by lia.
+  destruct (check_fold st0 (length t) 1 (Some 0%nat) 0 (clock e)) as (p' & bj' & last' & E & B).
+  { cbn. lia. }
+  rewrite E. cbn [st0 winsort_state0 file skipn] in B. rewrite firstn_all in B. cbn [Z.eqb andb] in B.
+  unfold Winsort_gen.stream_check_end, ite, fail, ret. rewrite <- B.
+  destruct (bj' =? 0); reflexivity.
 Qed.
